@@ -32,6 +32,16 @@ CHECKS = [
              "(products exist, branching in [0,1]); every material class is instantiated and density/pseudo-density/expansion scanned over a temperature grid "
              "across each stated validity range (quick 25, thorough 400 temperatures). Says the tables are self-consistent, not that they are physically right.",
      "note": NOTE},
+    {"property_id": "C03",
+     "technique": "runtime monitoring: hook on Component.setTemperature records an event log; offline checker applies closed-form expansion laws",
+     "text": "Every 2-D shaped component class x every library material class is built and driven through random temperature paths inside the "
+             "material's stated range; a hook on the real Component.setTemperature logs temperatures and number densities before/after, and an offline "
+             "checker compares every step with f=(100+p(T))/(100+p(T0)) evaluated by the harness from the material's own correlation: N scales by f^-2, "
+             "area by f^2, N*A conserved, each expanding dimension = cold x f(Tinput->T), end state independent of the path (vs a fresh component taken "
+             "there in one step), hot setDimension reads back, linked dimensions (pairs and chains, free and inside a block) always equal the target's "
+             "current value with no stale area/volume cache, fluid/custom components keep their dimensions. The shape x material product is complete; "
+             "temperatures and paths are sampled.",
+     "note": NOTE},
 ]
 
 _claimed = {c["property_id"] for c in CHECKS}
